@@ -160,7 +160,11 @@ def run_main(doc):
         from statham.__main__ import main
         from vf.common import FeatureNotImplementedError, SchemaParseError, exec_module
 
+        import sys
+
         _CNT[0] += 1
+        old_limit = sys.getrecursionlimit()
+        sys.setrecursionlimit(1000)  # the default; cyclic documents are detected by exhausting it
         d = tempfile.mkdtemp(prefix="vf_c20_")
         path = os.path.join(d, "doc_%d_%d.json" % (os.getpid(), _CNT[0]))
         try:
@@ -180,6 +184,7 @@ def run_main(doc):
                 return "generated module fails: " + type(exc).__name__
             return "ok"
         finally:
+            sys.setrecursionlimit(old_limit)
             try:
                 os.remove(path)
                 os.rmdir(d)
